@@ -43,6 +43,6 @@ run_one() {
   echo
 }
 export -f run_one; export V
-printf '%s\n' "${jobs[@]}" | xargs -P 3 -I{} bash -c 'run_one "$@"' _ {} | tee -a "$OUT"
+printf '%s\n' "${jobs[@]}" | xargs -P "${VERIF_SEEDED_PAR:-3}" -I{} bash -c 'run_one "$@"' _ {} | tee -a "$OUT"
 echo "== $(grep -c '^PASS' "$OUT") pass, $(grep -c '^FAIL' "$OUT") fail"
 grep -q '^FAIL' "$OUT" && exit 1 || exit 0
